@@ -313,13 +313,15 @@ def _dispatch(name, spec, res):
         dcount += 2
         itds = [x for x in fref.fd.integral_data]
         # coordinate element hash and cell-type tag
-        dom_ok = False
-        for itd in itds:
-            cel = fref.coord_element(itd)
-            if int(d.ce_hash) == int(cel.basix_hash()):
-                dom_ok = True
-        if not dom_ok:
-            viol(f"ce-hash:{kn}", f"coordinate_element_hash of {kn} matches no coordinate element of the form")
+        # the kernel is listed under some (type, id); its hash must be that of the mesh the user
+        # declared those integrals over
+        want_h = set()
+        for (it_, sid_), kns_ in listed.items():
+            if kn in kns_:
+                for I in declared.get((it_, sid_), []):
+                    want_h.add(int(I.ufl_domain().ufl_coordinate_element().basix_hash()))
+        if want_h and int(d.ce_hash) not in want_h:
+            viol(f"ce-hash:{kn}", f"coordinate_element_hash {int(d.ce_hash)} of {kn} is not the hash of the coordinate element of the mesh its integrals are declared over ({sorted(want_h)})")
     res["extra"]["descriptor_fields_compared"] = dcount
 
     # ---- per (type, id): sum of listed kernels vs the user's integrands for that id ----
@@ -336,7 +338,9 @@ def _dispatch(name, spec, res):
             continue
         sitd = sitds[0]
         # layout/packing of the WHOLE form
-        witd = next(d for d in fref.fd.integral_data if d.integral_type == itype)
+        dom0 = declared[(itype, sid)][0].ufl_domain()
+        witd = next((d for d in fref.fd.integral_data if d.integral_type == itype and d.domain == dom0 and sid in sid_list(d)), None) or \
+            next(d for d in fref.fd.integral_data if d.integral_type == itype and d.domain == dom0)
         nw, nc, nx, shape, nA, width, cel = kernel_layout(fref, witd)
         cellname = witd.domain.ufl_cell().cellname
         facet_cells = sorted({ids[k].domain for k in kns}) if itype in ("exterior_facet", "interior_facet") else [None]
